@@ -89,11 +89,24 @@ pub fn step<'a>(term: &Term<'a>) -> Option<Term<'a>> {
             }
         }
         Let(definitions, body) => {
-            // If there are definitions, step the first one and substitute it into the subsequent
+            // If there are definitions, step the first one and substitute it into the other
             // definitions and body. Otherwise, just return the body.
-            if let Some((variable, annotation, definition)) = definitions.first() {
+            if !definitions.is_empty() {
+                // A definition which is already a value is available to the whole group, as the
+                // parser's definition-order check assumes. So if the first definition still needs to
+                // be evaluated but a later one is a value, substitute that one first.
+                let position = if is_value(&definitions[0].2) {
+                    0
+                } else {
+                    definitions
+                        .iter()
+                        .position(|(_, _, definition)| is_value(definition))
+                        .unwrap_or(0)
+                };
+                let (variable, annotation, definition) = &definitions[position];
+
                 // Compute this once rather than multiple times.
-                let index = definitions.len() - 1;
+                let index = definitions.len() - 1 - position;
                 let index_plus_one = index + 1;
 
                 // Try to step the definition.
@@ -152,11 +165,12 @@ pub fn step<'a>(term: &Term<'a>) -> Option<Term<'a>> {
                     0,
                 );
 
-                // Substitute the unfolded definition in subsequent annotations and definitions.
+                // Substitute the unfolded definition in the other annotations and definitions.
                 let substituted_definitions = definitions
                     .iter()
-                    .skip(1)
-                    .map(|(variable, annotation, definition)| {
+                    .enumerate()
+                    .filter(|(i, _)| *i != position)
+                    .map(|(_, (variable, annotation, definition))| {
                         (
                             *variable,
                             Rc::new(open(annotation, index, &unfolded_definition, 0)),
